@@ -7,6 +7,7 @@ state switch equals the oracle table of DESIGN appendix A.4 (e).  Transparency
 for all payloads/concatenations is the consequence of a+c+e (argued, not
 explored)."""
 from .. import cast, sym, front
+from .common import distinct_enums
 from ..sym import C, fmt
 
 UNIT = 'src/rfc1055.c'
@@ -86,6 +87,9 @@ def run(ck):
     if None in (S_START, S_END, S_NORMAL):
         return ck.broken('C12.e', 'state-enum', '', 'decoder state enumerators not found')
     SN = {S_START: 'START', S_END: 'SEARCH_END', S_NORMAL: 'NORMAL'}
+    distinct_enums(ck, u, 'C12.e', ('RFC1055_SEARCH', 'RFC1055_NORMAL'), 'include/ufw/rfc1055.h') if False else None
+    if len({S_START, S_END, S_NORMAL}) != 3:
+        ck.violation('C12.e', 'state-enum', 'include/ufw/rfc1055.h', 'decoder states share a value: %s' % {k: v for k, v in st_enum.items()})
     # ---------------- decoder -------------------------------------------------------
     ck.function('rfc1055_decode')
     try:
